@@ -25,6 +25,7 @@ function leafKinds() {
     ['text:interleaved', () => text('a', X, 'b', Y, 'c')],
     ['text:blank-between-bindings', () => text(X, ' ', Y)],
     ['text:braces', () => text('{{a}} }} {')],
+    ['text:reference-lengths', () => text('a\tb\u00e9c\u{1f600}d\u{10ffff}e')],
     ['comment', () => comment(' c ')],
   ]
 }
@@ -38,6 +39,7 @@ function elementKinds() {
     ['attr:static', () => v([A.plain('p', 's')])],
     ['attr:static-entities', () => v([A.plain('p', 'a"b&c<d\'')])],
     ['attr:static-empty', () => v([A.plain('p', '')])],
+    ['attr:reference-lengths', () => v([A.plain('p', 'a\tb\u00e9c\u{1f600}d\u{10ffff}e'), A.cls('\u00e9 \tk')])],
     ['attr:binding', () => v([A.plain('p', X)])],
     ['attr:mixed', () => v([A.plain('p', ['a', X, 'b'])])],
     ['attr:two-bindings', () => v([A.plain('p', [X, Y])])],
@@ -79,6 +81,17 @@ function elementKinds() {
     ['extra-attr', () => v([A.extraAttr('e-f', 'v')])],
     ['attrs:several', () => v([A.plain('p', X), A.cls('c'), A.id('i'), A.dataHyphen('k', Y), A.event('bind', 'tap', 'f')])],
   ]
+  // every event prefix x every value form (the flags travel separately from the handler), on an element and on a <slot>
+  for (const prefix of ['bind', 'catch', 'mut-bind', 'capture-bind', 'capture-catch', 'capture-mut-bind']) {
+    const forms = [['binding', X], ['member-binding', E(M.mem(id('a'), 'b'))], ['valueless', undefined], ['mixed', ['f', X]]]
+    for (const [fn, fv] of forms) {
+      out.push([`event-x:${prefix}:${fn}`, () => v([A.event(prefix, 'tap', fv)])])
+    }
+    out.push([`event-x:${prefix}:two-events`, () => v([A.event(prefix, 'tap', X), A.event(prefix, 'b-c', 'g')])])
+  }
+  // the other families x the value forms that the plain cases above leave out
+  const fam = [['data-', (val) => A.dataHyphen('k', val)], ['data:', (val) => A.dataColon('k', val)], ['mark', (val) => A.mark('m', val)], ['model', (val) => A.model('v', val)], ['change', (val) => A.change('p', val)], ['id', (val) => A.id(val)], ['slot-attr', (val) => A.slot(val)], ['class', (val) => A.cls(val)], ['style', (val) => A.style(val)]]
+  for (const [fname, f] of fam) for (const [fn, fv] of [['mixed', ['a', X, 'b']], ['two-bindings', [X, Y]], ['member-binding', E(M.mem(id('a'), 'b'))]]) out.push([`${fname}-x:${fn}`, () => v([f(fv)])])
   return out
 }
 
@@ -186,6 +199,13 @@ function exprForms() {
     ['paren-bitor', M.bin('^', M.grp(M.bin('|', x, y)), M.lit('1'))],
     ['typeof', M.un('typeof', x)],
     ['length', M.mem(id('list'), 'length')],
+    // a parenthesised conditional as an operand (its branches must stay dependencies of the whole expression)
+    ['cond-operand', M.bin('+', M.grp(M.cond(c, x, y)), M.lit("'s'"))],
+    ['not-cond', M.un('!', M.grp(M.cond(c, x, y)))],
+    ['cond-member', M.mem(M.grp(M.cond(c, a, id('b'))), 'b')],
+    ['cond-of-cond', M.cond(M.grp(M.cond(c, x, y)), y, x)],
+    ['nullish-operand', M.bin('+', M.grp(M.bin('??', x, y)), M.lit("'s'"))],
+    ['plus-right-group', M.bin('+', x, M.grp(M.bin('+', y, M.lit('1'))))],
   ]
 }
 /** binding positions: (expr) -> nodes */
@@ -206,6 +226,10 @@ function bindingPositions() {
     ['model', (e) => [W, el('v', [A.model('val', E(e))])]],
     ['change', (e) => [W, el('v', [A.change('prop', E(e))])]],
     ['wx:if', (e) => [W, el('v', [], [text('T')], { wxIf: E(e) }), el('w', [], [text('F')], { wxElse: true })]],
+    ['wx:if-alone', (e) => [W, el('v', [], [text('T')], { wxIf: E(e) }), text('after')]],
+    ['wx:if-alone-block', (e) => [W, block([text('T')], { wxIf: E(e) })]],
+    ['wx:if-elif', (e) => [W, el('v', [], [text('T')], { wxIf: E(e) }), el('w', [], [text('E')], { wxElif: E(e) })]],
+    ['wx:elif-last', (e) => [W, el('v', [], [text('T')], { wxIf: E(id('d')) }), el('w', [], [text('E')], { wxElif: E(e) })]],
     ['wx:elif', (e) => [W, el('v', [], [text('T')], { wxIf: E(id('d')) }), el('w', [], [text('E')], { wxElif: E(e) }), el('u', [], [], { wxElse: true })]],
     ['wx:for', (e) => [W, el('v', [], [text(E(id('index')), '=', E(id('item')))], { wxFor: { list: E(e) } })]],
     ['for+if', (e) => [W, el('v', [], [text(E(id('item')))], { wxFor: { list: E(id('list')) }, wxIf: E(M.bin('||', e, id('item'))) })]],
@@ -256,13 +280,36 @@ function placementCases() {
     ['slot-name', (e) => [slot(E(e))]],
     ['block-slot-attr', (e) => [el('c', [], [block([text('t')], { slot: E(e) })])]],
     ['include-body', (e) => [include('o')]],
+    ['include-inside-if', (e) => [block([include('o')], { wxIf: E(id('d2')) })]],
+    ['include-inside-for', (e) => [block([include('o')], { wxFor: { list: E(id('list')) } })]],
+    ['include-inside-element', (e) => [el('w', [], [include('o')])]],
   ]
+  // a binding that FOLLOWS a nested dynamic node inside an outer dynamic subtree (the outer subtree is still open)
+  const outers = [
+    ['if', (b) => [block(b, { wxIf: E(id('d2')) })]],
+    ['else', (b) => [block([text('x')], { wxIf: E(id('d')) }), block(b, { wxElse: true })]],
+    ['for', (b) => [block(b, { wxFor: { list: E(id('list')) } })]],
+    ['for-element', (b) => [el('w', [], b, { wxFor: { list: E(id('list')) } })]],
+  ]
+  const nested = [
+    ['if', () => [el('q', [], [text('*')], { wxIf: E(id('d')) })]],
+    ['if-else', () => [el('q', [], [text('*')], { wxIf: E(id('d')) }), el('q', [], [text('-')], { wxElse: true })]],
+    ['for', () => [block([text('i')], { wxFor: { list: E(M.arr([M.lit('1'), M.lit('2')])), item: 'j', index: 'k' } })]],
+    ['template-is', () => [tdef('nt', [text('NT')]), tis('nt')]],
+    ['include', () => [include('o2')]],
+    ['slot', () => [slot('sn')]],
+  ]
+  for (const [on, of] of outers) for (const [nn, nf] of nested) {
+    unreachable.push([`after-${nn}-inside-${on}`, (e) => of([...nf(), el('s', [A.plain('q', E(e))], [text(E(e))])])])
+  }
+  const basicCount = 13 // the positions listed literally above are crossed with every form and every mappable position; the composed ones with two of each
   for (const [fn, f] of forms) for (const [mn, m] of mappable) for (const [un, u] of unreachable) for (const order of [0, 1]) {
+    if (unreachable.findIndex((x) => x[0] === un) >= basicCount && !((fn === 'plain' || fn === 'cond') && (mn === 'text' || mn === 'attr'))) continue
     const e = f(id('x'))
     const a = [m(e)]
     const b = u(fn === 'plain' ? id('x') : e)
     const main = order === 0 ? [...a, ...b] : [...b, ...a]
-    const files = un === 'include-body' ? { 'd/o': [text('I', E(e))] } : {}
+    const files = un.startsWith('include-') ? { 'd/o': [text('I', E(e)), el('i', [A.cls(E(e))])] } : un.includes('after-include-') ? { 'd/o2': [text('I2')] } : {}
     out.push({ name: `placement:${fn}:${mn}+${un}:${order === 0 ? 'mappable-first' : 'unreachable-first'}`, main, files, scripts: {} })
   }
   return out
